@@ -528,11 +528,22 @@ Section AddChildObject.
      that name is removed with its subtree (self._remove(first)) and the new module is added *)
   Section Replace.
     Variables (first : id) (T : list id) (m1 : registry) (u : list id).
+    (* the store after `del first.parent.contents[first.name]` (when first is the entry) and
+       `dup.parent.contents[dup.name] = dup`: only the contents of q differ, and there only the entry of n *)
+    Variables (st' : id -> obj) (cq : list (name * id)).
     Hypothesis Hfirst : rget fn (allobj s) = Some first.
     Hypothesis Hcov : covered s first.
     Hypothesis HT : subtree s first = Some T.
     Hypothesis Hm1 : del_walk s T (allobj s) = Some m1.
-    Let s' := mkState st1 (next s) (m1 ++ [(fn, ob)]) (roots s) (depthb s) u.
+    Hypothesis Hcore' : forall x, oname (st' x) = oname (st x) /\ oparent (st' x) = oparent (st x) /\ ocl (st' x) = ocl (st x) /\
+                                  okind (st' x) = okind (st x) /\ osup (st' x) = osup (st x).
+    Hypothesis Hcq : ocont (st' q) = cq.
+    Hypothesis Hcoth : forall x, x <> q -> ocont (st' x) = ocont (st x).
+    Hypothesis Hcq_nodup : NoDup (map fst cq).
+    Hypothesis Hcq_in : forall n' c, In (n', c) cq -> (n' = n /\ c = ob) \/ (n' <> n /\ In (n', c) (ocont (st q))).
+    Hypothesis Hcq_n : cget n cq = Some ob.
+    Hypothesis Hcq_get : forall n', n <> n' -> cget n' cq = cget n' (ocont (st q)).
+    Let s' := mkState st' (next s) (m1 ++ [(fn, ob)]) (roots s) (depthb s) u.
 
     Lemma rm_first_reg : reg s first.
     Proof. exists fn. exact Hfirst. Qed.
@@ -586,7 +597,9 @@ Section AddChildObject.
           * apply rm_m1. auto.
     Qed.
     Lemma rm_fullpath : forall x, fullpath s' x = fullpath s x.
-    Proof. intros x. unfold fullpath, s'. cbn. apply st1_fullpath. Qed.
+    Proof.
+      intros x. unfold fullpath, s'. cbn. apply fullpath_f_ext. intros y. destruct (Hcore' y) as [H1 [H2 _]]. auto.
+    Qed.
     (* the survivors are closed under parent; no survivor is a child of q named n *)
     Lemma rm_not_anc_parent : forall o p, ~ anc st first o -> oparent (st o) = Some p -> ~ anc st first p.
     Proof. intros o p Hn Hp Ha. apply Hn. eapply anc_step; eauto. Qed.
@@ -598,26 +611,26 @@ Section AddChildObject.
 
     Lemma add_replace_inv : Inv s'.
     Proof.
-      assert (Hst : store s' = st1) by reflexivity.
+      assert (Hst : store s' = st') by reflexivity.
       destruct rm_first_parent as [Hfp Hfn].
       constructor.
       - unfold s'. cbn. apply (nodup_app_new path_eqb path_eqb_eq); [|exact rm_fn_free].
         apply (del_walk_nodup _ _ _ _ Hm1). apply (inv_keys s HI).
       - intros o Ho. rewrite Hst. apply rm_reg in Ho. destruct (N.eq_dec o q) as [->|Hoq].
-        + rewrite st1_cont_q. apply (nodup_aset name_eqb name_eqb_eq). apply (inv_ckeys s HI). exact Hq.
-        + rewrite st1_cont_other by exact Hoq. destruct Ho as [->|[Ho _]]; [unfold st; rewrite Hocont; constructor|].
+        + rewrite Hcq. exact Hcq_nodup.
+        + rewrite Hcoth by exact Hoq. destruct Ho as [->|[Ho _]]; [unfold st; rewrite Hocont; constructor|].
           apply (inv_ckeys s HI). exact Ho.
       - intros p o Hp. assert (Ho : reg s' o) by (exists p; exact Hp). apply rm_reg in Ho. unfold s'. cbn.
         destruct Ho as [->|[Ho _]]; [exact Hlt | apply (reg_lt s HI); exact Ho].
       - intros p o Hp. rewrite rm_fullpath. rewrite rm_rget in Hp. destruct (path_eqb fn p) eqn:E.
         + inversion Hp as [E2]. apply path_eqb_eq in E. rewrite <- E, <- E2. exact Hobpath.
         + apply rm_m1 in Hp. apply (inv_I1 s HI). apply Hp.
-      - intros o p Ho Hp. rewrite Hst in Hp. destruct (st1_core o) as [_ [H2 _]]. rewrite H2 in Hp.
+      - intros o p Ho Hp. rewrite Hst in Hp. destruct (Hcore' o) as [_ [H2 _]]. rewrite H2 in Hp.
         apply rm_reg. right. apply rm_reg in Ho. destruct Ho as [->|[Ho Hna]].
         + unfold st in Hp. rewrite Hopar in Hp. inversion Hp as [E]. rewrite <- E. split; [exact Hq | exact rm_not_anc_q].
         + split; [eapply (inv_par s HI); eauto | eapply rm_not_anc_parent; eauto].
       - intros o n' c Ho Hin. rewrite Hst in *. apply rm_reg in Ho.
-        destruct (st1_core c) as [C1 [C2 _]]. rewrite C1, C2.
+        destruct (Hcore' c) as [C1 [C2 _]]. rewrite C1, C2.
         assert (Hold : forall o0, reg s o0 -> ~ anc st first o0 -> In (n', c) (ocont (st o0)) -> (o0 = q -> n' <> n) ->
                                   reg s' c /\ oparent (st c) = Some o0 /\ oname (st c) = n').
         { intros o0 Ho0 Hna0 Hin0 Hqn. destruct (inv_cont s HI o0 n' c Ho0 Hin0) as [G1 [G2 G3]].
@@ -628,12 +641,11 @@ Section AddChildObject.
             apply (Hqn (eq_sym E2)). rewrite <- G3. exact Hfn.
           - fold st in G2. rewrite G2 in Hp. inversion Hp as [E2]. rewrite <- E2 in Hap. exact (Hna0 Hap). }
         destruct (N.eq_dec o q) as [->|Hoq].
-        + rewrite st1_cont_q in Hin.
-          apply (in_aset_inv name_eqb name_eqb_eq) in Hin; [|apply (inv_ckeys s HI); exact Hq].
+        + rewrite Hcq in Hin. apply Hcq_in in Hin.
           destruct Hin as [[-> ->]|[Hne Hin]].
           * split; [apply rm_reg; left; reflexivity | split; [exact Hopar | exact Honame]].
           * apply (Hold q Hq rm_not_anc_q Hin). intros _. exact Hne.
-        + rewrite st1_cont_other in Hin by exact Hoq.
+        + rewrite Hcoth in Hin by exact Hoq.
           destruct Ho as [->|[Ho Hna]]; [unfold st in Hin; rewrite Hocont in Hin; destruct Hin|].
           apply (Hold o Ho Hna Hin). intros E. contradiction.
       - intros r Hr. unfold s' in Hr. cbn in Hr. destruct (inv_roots s HI r Hr) as [G1 G2].
@@ -641,31 +653,31 @@ Section AddChildObject.
         + apply rm_reg. right. split; [exact G1|]. intros Ha. destruct (anc_inv _ _ _ Ha) as [E|[p [Hp _]]].
           * rewrite <- E in G2. fold st in G2. rewrite Hfp in G2. discriminate.
           * fold st in G2. rewrite G2 in Hp. discriminate.
-        + rewrite Hst. destruct (st1_core r) as [_ [H2 _]]. rewrite H2. exact G2.
-      - intros o p Ho Hp. rewrite Hst in *. destruct (st1_core o) as [O1 [O2 [_ [_ O5]]]]. rewrite O1, O5. rewrite O2 in Hp.
+        + rewrite Hst. destruct (Hcore' r) as [_ [H2 _]]. rewrite H2. exact G2.
+      - intros o p Ho Hp. rewrite Hst in *. destruct (Hcore' o) as [O1 [O2 [_ [_ O5]]]]. rewrite O1, O5. rewrite O2 in Hp.
         apply rm_reg in Ho. destruct Ho as [->|[Ho Hna]].
-        + unfold st in Hp. rewrite Hopar in Hp. inversion Hp as [E]. left. rewrite <- E. rewrite st1_cont_q. unfold st.
-          rewrite Honame. apply cget_cset_eq.
+        + unfold st in Hp. rewrite Hopar in Hp. inversion Hp as [E]. left. rewrite <- E. rewrite Hcq. unfold st.
+          rewrite Honame. exact Hcq_n.
         + destruct (N.eq_dec p q) as [->|Hpq].
-          * rewrite st1_cont_q. unfold cget, cset. rewrite cget_cset_ne.
+          * rewrite Hcq. rewrite Hcq_get.
             -- apply (inv_I3 s HI); assumption.
             -- intros E. apply (rm_child_n o Ho Hna Hp). auto.
-          * rewrite st1_cont_other by exact Hpq. apply (inv_I3 s HI); assumption.
-      - intros o Ho Hp. rewrite Hst in Hp. destruct (st1_core o) as [_ [O2 _]]. rewrite O2 in Hp. apply rm_reg in Ho.
+          * rewrite Hcoth by exact Hpq. apply (inv_I3 s HI); assumption.
+      - intros o Ho Hp. rewrite Hst in Hp. destruct (Hcore' o) as [_ [O2 _]]. rewrite O2 in Hp. apply rm_reg in Ho.
         unfold s'. cbn. destruct Ho as [->|[Ho _]]; [unfold st in Hp; congruence | apply (inv_top s HI); assumption].
-      - intros o p Ho Hp H1 H2. rewrite Hst in *. destruct (st1_core o) as [_ [O2 [O3 [O4 _]]]].
-        destruct (st1_core p) as [_ [_ [P3 _]]]. rewrite O2 in Hp. rewrite O3 in H1. rewrite P3 in H2. rewrite O4.
+      - intros o p Ho Hp H1 H2. rewrite Hst in *. destruct (Hcore' o) as [_ [O2 [O3 [O4 _]]]].
+        destruct (Hcore' p) as [_ [_ [P3 _]]]. rewrite O2 in Hp. rewrite O3 in H1. rewrite P3 in H2. rewrite O4.
         apply rm_reg in Ho. destruct Ho as [->|[Ho _]].
         + unfold st in Hp. rewrite Hopar in Hp. inversion Hp as [E]. rewrite <- E in H2. apply Hkind; assumption.
         + apply (inv_I5a s HI o p); assumption.
-      - intros o p Ho Hp H1. rewrite Hst in *. destruct (st1_core o) as [_ [O2 [O3 _]]].
-        destruct (st1_core p) as [_ [_ [P3 _]]]. rewrite O2 in Hp. rewrite O3 in H1. rewrite P3.
+      - intros o p Ho Hp H1. rewrite Hst in *. destruct (Hcore' o) as [_ [O2 [O3 _]]].
+        destruct (Hcore' p) as [_ [_ [P3 _]]]. rewrite O2 in Hp. rewrite O3 in H1. rewrite P3.
         apply rm_reg in Ho. destruct Ho as [->|[Ho _]].
         + unfold st in Hp. rewrite Hopar in Hp. inversion Hp as [E]. rewrite <- E. apply Hmod; assumption.
         + apply (inv_I5b s HI o p); assumption.
-      - intros o Ho H1. rewrite Hst in *. destruct (st1_core o) as [_ [_ [O3 _]]]. rewrite O3 in H1.
+      - intros o Ho H1. rewrite Hst in *. destruct (Hcore' o) as [_ [_ [O3 _]]]. rewrite O3 in H1.
         destruct (N.eq_dec o q) as [->|Hoq]; [unfold st in H1; congruence|].
-        rewrite st1_cont_other by exact Hoq. apply rm_reg in Ho. destruct Ho as [->|[Ho _]]; [exact Hocont|].
+        rewrite Hcoth by exact Hoq. apply rm_reg in Ho. destruct Ho as [->|[Ho _]]; [exact Hocont|].
         apply (inv_I5c s HI); assumption.
     Qed.
   End Replace.
@@ -815,6 +827,69 @@ Proof.
   - intros o Ho H1. rewrite Hst in *. apply Hreg in Ho. destruct Ho as [->|Ho]; [exact Hoc|]. apply (inv_I5c s HI); assumption.
 Qed.
 
+(* the registry entry of <path of q>.<n> is a child of q named n *)
+Lemma entry_parent : forall s q pq n x, Inv s -> reg s q -> fullpath s q = Some pq -> rget (pq ++ [n]) (allobj s) = Some x ->
+    oparent (store s x) = Some q /\ oname (store s x) = n.
+Proof.
+  intros s q pq n x HI Hq Hpq Hx. assert (Hrx : reg s x) by (exists (pq ++ [n]); exact Hx).
+  assert (Hp := inv_I1 s HI _ _ Hx). destruct (oparent (store s x)) as [q'|] eqn:E.
+  - assert (Hq' : reg s q') by (eapply (inv_par s HI); eauto).
+    destruct (reg_self s HI q' Hq') as [pq' [Hpq' _]].
+    rewrite (reg_child_path s HI x q' pq' Hrx E Hpq') in Hp. inversion Hp as [Heq].
+    apply app_inj_tail in Heq. destruct Heq as [Heq Hn]. split; [|exact Hn].
+    f_equal. apply (path_inj s HI q' q pq' Hq' Hq Hpq'). rewrite Heq. exact Hpq.
+  - apply (fullpath_f_root _ _ _ _ E) in Hp. exfalso.
+    apply (f_equal (@length name)) in Hp. rewrite app_length in Hp. cbn in Hp.
+    apply fullpath_f_nonempty in Hpq. destruct pq; [apply Hpq; reflexivity | cbn in Hp; lia].
+Qed.
+
+(* the end of a module replacement: whatever `del first.parent.contents[first.name]` left in the contents of q
+   (st0: nothing else differs from the store of s), addObject(dup) re-establishes the invariant *)
+Lemma add_replace_finish : forall s ob q n pq first T m1 st0 r s',
+    Inv s -> ob < next s -> ocont (store s ob) = [] -> oparent (store s ob) = Some q -> oname (store s ob) = n ->
+    reg s q -> ~ reg s ob -> can_contain_imports (ocl (store s q)) = true -> fullpath s q = Some pq ->
+    fullpath s ob = Some (pq ++ [n]) ->
+    (ocl (store s ob) = CFunction -> ocl (store s q) = CClass -> method_like (okind (store s ob)) = true) ->
+    (is_module (ocl (store s ob)) = true -> ocl (store s q) = CPackage) ->
+    rget (pq ++ [n]) (allobj s) = Some first -> covered s first -> subtree s first = Some T ->
+    del_walk s T (allobj s) = Some m1 ->
+    (forall x, same_core (st0 x) (store s x) \/ (x = q /\ oname (st0 x) = oname (store s x) /\ oparent (st0 x) = oparent (store s x) /\
+                ocl (st0 x) = ocl (store s x) /\ okind (st0 x) = okind (store s x) /\ osup (st0 x) = osup (store s x))) ->
+    NoDup (map fst (ocont (st0 q))) ->
+    (forall n' c, In (n', c) (ocont (st0 q)) -> In (n', c) (ocont (store s q))) ->
+    (forall n', n <> n' -> cget n' (ocont (st0 q)) = cget n' (ocont (store s q))) ->
+    add_object (mkState st0 (next s) m1 (roots s) (depthb s) r) ob = Some s' -> Inv s'.
+Proof.
+  intros s ob q n pq first T m1 st0 r s' HI Hlt Hoc Hop Hon Hq Hun Hqc Hqp Hobp Hk Hm Hf Hcov HT Hm1 Hst0 Hnd Hincl Hget H.
+  assert (Hobq : ob <> q) by (intros E; apply Hun; rewrite E; exact Hq).
+  assert (Hc0 : forall x, oname (st0 x) = oname (store s x) /\ oparent (st0 x) = oparent (store s x) /\ ocl (st0 x) = ocl (store s x) /\
+                          okind (st0 x) = okind (store s x) /\ osup (st0 x) = osup (store s x)).
+  { intros x. destruct (Hst0 x) as [[A1 [A2 [A3 [A4 [_ A6]]]]]|[_ [A1 [A2 [A3 [A4 A6]]]]]]; auto. }
+  assert (Hco0 : forall x, x <> q -> ocont (st0 x) = ocont (store s x)).
+  { intros x Hx. destruct (Hst0 x) as [[_ [_ [_ [_ [A5 _]]]]]|[E _]]; [exact A5 | contradiction]. }
+  unfold add_object in H. cbn [store] in H.
+  destruct (Hc0 ob) as [O1 [O2 _]]. rewrite O2, Hop in H. rewrite O1, Hon in H.
+  set (stf := upd st0 q (with_cont (st0 q) (cset n ob (ocont (st0 q))))) in *.
+  assert (Hcf : forall x, oname (stf x) = oname (store s x) /\ oparent (stf x) = oparent (store s x) /\ ocl (stf x) = ocl (store s x) /\
+                          okind (stf x) = okind (store s x) /\ osup (stf x) = osup (store s x)).
+  { intros x. unfold stf, upd. destruct (N.eqb x q) eqn:E; [apply N.eqb_eq in E; subst x; cbn; apply Hc0 | apply Hc0]. }
+  assert (Hfpf : forall F x, fullpath_f F stf x = fullpath_f F (store s) x).
+  { intros F x. apply fullpath_f_ext. intros y. destruct (Hcf y) as [A1 [A2 _]]. auto. }
+  unfold fullpath in H. cbn [store depthb set_store] in H. rewrite Hfpf in H. unfold fullpath in Hobp. rewrite Hobp in H.
+  cbn [allobj set_store] in H.
+  assert (Hfree : rget (pq ++ [n]) m1 = None) by (apply (rm_fn_free s n pq HI first T m1 Hf Hcov HT Hm1)).
+  rewrite Hfree in H. inversion H; subst s'. clear H.
+  refine (add_replace_inv s ob q n pq HI Hlt Hoc Hop Hon Hq Hqc Hqp Hobp Hk Hm first T m1 r stf
+                          (cset n ob (ocont (st0 q))) Hf Hcov HT Hm1 Hcf _ _ _ _ _ _).
+  - unfold stf. rewrite upd_same. reflexivity.
+  - intros x Hx. unfold stf. rewrite upd_other by exact Hx. apply Hco0. exact Hx.
+  - apply (nodup_aset name_eqb name_eqb_eq). exact Hnd.
+  - intros n' c Hin. apply (in_aset_inv name_eqb name_eqb_eq) in Hin; [|exact Hnd].
+    destruct Hin as [[-> ->]|[Hne Hin]]; [left; auto | right; split; [exact Hne | apply Hincl; exact Hin]].
+  - apply cget_cset_eq.
+  - intros n' Hne. unfold cget, cset. rewrite (cget_cset_ne _ _ _ _ Hne). apply Hget. exact Hne.
+Qed.
+
 (* ------------------------------------------------------------------ AddModule *)
 Lemma step_add_module_inv : forall s pkg n parent s', Inv s -> guard_add_module s pkg n parent ->
     step s (AddModule pkg n parent) = Some s' -> Inv s'.
@@ -850,25 +925,56 @@ Proof.
       destruct (subtree s1 first) as [T|] eqn:ET; [|discriminate].
       destruct (del_walk s1 T (allobj s1)) as [m1|] eqn:Em1; [|discriminate].
       destruct (negb (existsb (N.eqb first) (unproc s1))); [discriminate|].
-      match type of H with context [fullpath ?X ob] => assert (Hfp' : fullpath X ob = Some (pq ++ [n])) by exact Hobp end.
-      rewrite Hfp' in H. clear Hfp'.
-      destruct (rget (pq ++ [n]) m1) eqn:Efree; [discriminate|].
       assert (Hcov1 : covered s1 first).
       { apply (covered_frame s s1 first HI Ha1); [|exact Hcov].
         intros o Ho. rewrite Hoth; [apply same_core_refl|]. intros E. apply Hun. apply Hreg. rewrite <- E. exact Ho. }
       assert (Hq1 : reg s1 q) by (apply Hreg; exact Hq).
       assert (Hop : oparent (store s1 ob) = Some q) by (rewrite Hst; reflexivity).
       assert (Hon : oname (store s1 ob) = n) by (rewrite Hst; reflexivity).
-      unfold add_object in H. cbn [store set_unproc set_allobj] in H. rewrite Hop, Hon in H.
-      unfold fullpath in H. cbn [store depthb set_store set_unproc set_allobj] in H.
-      rewrite (st1_fullpath s1 ob q n) in H. unfold fullpath in Hobp. rewrite Hobp in H.
-      cbn [allobj set_store set_unproc set_allobj] in H. rewrite Efree in H. inversion H; subst s'. clear H.
-      rewrite <- Ha1 in Ef.
-      refine (add_replace_inv s1 ob q n pq HI1 Hlt _ Hop Hon Hq1 _ (Hfp q pq Hq Hpq) Hobp _ _ first T m1 _ Ef Hcov1 ET Em1).
-      * rewrite Hst. reflexivity.
-      * rewrite (Hoth q Hqne), Hqp. reflexivity.
-      * rewrite Hcl. destruct pkg; discriminate.
-      * intros _. rewrite (Hoth q Hqne). exact Hqp.
+      assert (Ef1 : rget (pq ++ [n]) (allobj s1) = Some first) by (rewrite Ha1; exact Ef).
+      destruct (entry_parent s1 q pq n first HI1 Hq1 (Hfp q pq Hq Hpq) Ef1) as [Hfpar Hfname].
+      rewrite (Hoth first Hfne) in Hfpar, Hfname. rewrite Hfpar, Hfname in H.
+      assert (Hfin : forall st0,
+                 (forall x, same_core (st0 x) (store s1 x) \/ (x = q /\ oname (st0 x) = oname (store s1 x) /\
+                     oparent (st0 x) = oparent (store s1 x) /\ ocl (st0 x) = ocl (store s1 x) /\
+                     okind (st0 x) = okind (store s1 x) /\ osup (st0 x) = osup (store s1 x))) ->
+                 NoDup (map fst (ocont (st0 q))) ->
+                 (forall n' c, In (n', c) (ocont (st0 q)) -> In (n', c) (ocont (store s1 q))) ->
+                 (forall n', n <> n' -> cget n' (ocont (st0 q)) = cget n' (ocont (store s1 q))) ->
+                 forall r r',
+                 match fullpath (mkState st0 (next s1) m1 (roots s1) (depthb s1) r) ob with
+                 | Some fn' => match rget fn' m1 with
+                               | Some _ => None
+                               | None => add_object (mkState st0 (next s1) m1 (roots s1) (depthb s1) r') ob
+                               end
+                 | None => None
+                 end = Some s' -> Inv s').
+      { intros st0 Hst0 Hnd0 Hincl0 Hget0 r r' H0.
+        destruct (fullpath (mkState st0 (next s1) m1 (roots s1) (depthb s1) r) ob) as [fn'|]; [|discriminate].
+        destruct (rget fn' m1); [discriminate|].
+        refine (add_replace_finish s1 ob q n pq first T m1 st0 r' s' HI1 Hlt _ Hop Hon Hq1 Hun _ (Hfp q pq Hq Hpq) Hobp _ _
+                                   Ef1 Hcov1 ET Em1 Hst0 Hnd0 Hincl0 Hget0 H0).
+        - rewrite Hst. reflexivity.
+        - rewrite (Hoth q Hqne), Hqp. reflexivity.
+        - rewrite Hcl. destruct pkg; discriminate.
+        - intros _. rewrite (Hoth q Hqne). exact Hqp. }
+      destruct (cget n (ocont (store s1 q))) as [x|] eqn:Ecg; [destruct (N.eqb x first) eqn:Ex|].
+      * (* the old module was its package's entry: the entry is deleted *)
+        refine (Hfin (upd (store s1) q (with_cont (store s1 q) (cdel n (ocont (store s1 q))))) _ _ _ _ _ _ H).
+        -- intros y. unfold upd. destruct (N.eqb y q) eqn:E; [right; apply N.eqb_eq in E; subst y; cbn; auto 10 | left; apply same_core_refl].
+        -- rewrite upd_same. cbn. apply (nodup_adel name_eqb). apply (inv_ckeys s1 HI1). exact Hq1.
+        -- intros n' c Hin. rewrite upd_same in Hin. cbn in Hin. apply (in_adel _ _ _ _ Hin).
+        -- intros n' Hne. rewrite upd_same. cbn. unfold cget, cdel. apply cget_cdel_ne. exact Hne.
+      * refine (Hfin (store s1) _ _ _ _ _ _ H).
+        -- intros y. left. apply same_core_refl.
+        -- apply (inv_ckeys s1 HI1). exact Hq1.
+        -- auto.
+        -- auto.
+      * refine (Hfin (store s1) _ _ _ _ _ _ H).
+        -- intros y. left. apply same_core_refl.
+        -- apply (inv_ckeys s1 HI1). exact Hq1.
+        -- auto.
+        -- auto.
     + assert (HI1u : Inv (set_unproc s1 (unproc s1 ++ [ob])))
         by (apply (Inv_frame s1); cbn; auto; try lia; intros; apply same_core_refl).
       apply (add_object_child_inv (set_unproc s1 (unproc s1 ++ [ob])) ob q n pq s' HI1u Hlt Hun);
